@@ -9,5 +9,5 @@ trap 'rm -rf "$tmp"' EXIT
 export GOFLAGS=-mod=mod GOPROXY=off GOSUMDB=off GOTOOLCHAIN=local; unset GOWORK
 (cd "$tmp" && go build ./... 2>&1 | head -5)
 for p in "$@"; do
-  /verif/bin/slugcheck -property "$p" -root "$tmp" -noevidence -noselftest 2>&1 | grep -E 'violated|CHECKER-ERROR|^result' | sed "s#$tmp/##g"
+  ${SLUGCHECK_BIN:-/verif/bin/slugcheck} -property "$p" -root "$tmp" -noevidence -noselftest 2>&1 | grep -E 'violated|CHECKER-ERROR|^result' | sed "s#$tmp/##g"
 done
